@@ -17,8 +17,11 @@ type GenEnv struct {
 	ianaAll      []Elem
 }
 
-func NewGenEnv(proto string) *GenEnv {
-	all := Elements()
+func NewGenEnv(proto string) *GenEnv { return NewGenEnvFrom(proto, Elements()) }
+
+// NewGenEnvFrom builds the generator environment from an element list of the caller's (e.g. a registry snapshot)
+// instead of the live information model.
+func NewGenEnvFrom(proto string, all []Elem) *GenEnv {
 	e := &GenEnv{Proto: proto, iana: ElementsByType(all, false), ent: ElementsByType(all, true)}
 	for _, x := range all {
 		if x.PEN == 0 {
